@@ -85,6 +85,12 @@ class Outcome:
             self.coverage["samples"].append(s)
 
     def finish(self) -> int:
+        try:
+            from . import witness
+
+            witness.run(self)
+        except ImportError as ex:  # mygrad not importable here: nothing to re-execute
+            self.notes.append(f"known-finding witnesses not executed: {ex}")
         for key, n in sorted(self.kf_hits.items()):
             k = self.open_kf(key)
             what = k["what"] if k else key
